@@ -447,4 +447,4 @@ LEVEL_TEXT = ("TRANSITION_TABLE/ACTIONS (re-evaluated from the AST) equal the PS
               "do_action is proved for all 247 pairs against the actions' contracts.")
 LEVEL_NOTE = ("trusted: pyvc, z3, the transcription spec/ps38_fsm.py, the environment model of the provider object "
               "(contracts/env_dul.py), callee contracts from C01/C26, ghost queue alignment (C02/C05).")
-TECHNIQUE = "deductive: effect-trace contracts per FSM action from the AST + exhaustive 13x19 table equality vs PS3.8 transcription"
+TECHNIQUE = 'deductive: effect-trace contracts per FSM action from the AST + exhaustive 13x19 table equality vs PS3.8 transcription + the Timer start/restart/stop class contract (ghost clock, z3 LRA) re-proved for the ARTIM effects'
